@@ -38,6 +38,12 @@ CHECKS = {
             "is generated as real classes; a configuration is judged when the reference naming model (computed from the user's settings, never read back from pane) says the output form "
             "is enabled on input. Two inherent defects are listed as known findings and matched by computed predicates.",
             E1_NOTE),
+    'C06': ("bounded-exhaustive type x member enumeration with natively built typed values (model images) pushed through the real convert; fixed-point oracle",
+            "For every accepted member of every grammar type the exactly-typed Python value is built natively (stdlib objects; dataclass instances both through constructors and "
+            "make_unchecked; nested in every container) and pushed through pane.convert: the result must match the model image at every depth, a second convert must be the identity, "
+            "and the value pane itself produced must also be a fixed point. Range, ValueOrList, HasConverter and internally tagged unions are included; the Range defect and the "
+            "untagged-union ambiguity are known findings matched by type root / computed overlap predicate.",
+            E1_NOTE),
     'C07': ("bounded-exhaustive enumeration of rejected cells; compositional oracle (the implementation on strictly smaller inputs) plus reference field tables",
             "For every rejected cell the root of the error tree is rebuilt from element-wise runs of the real converters on the sub-values alone: product children keyed by exactly "
             "the positions/keys rejected on their own and equal (typed, nan-safe) to the element's own tree, missing/extra/duplicate from the reference field table, one sum child per "
